@@ -20,7 +20,7 @@ ASSUMPTIONS = ['cooperative scheduling only; virtual integer time']
 
 FATES = ('live-polling', 'live-websocket', 'live-upgraded', 'rejected', 'close-packet', 'disconnect-sid', 'ws-drop', 'protocol-error',
          'vanish-silent', 'vanish-mid-poll', 'vanish-before-probe', 'vanish-after-probe', 'close-packet-ws', 'absent',
-         'close-then-request-cancelled')
+         'close-then-request-cancelled', 'silent-before-probe', 'silent-after-probe')
 LIVE = ('live-polling', 'live-websocket', 'live-upgraded')
 PI, PT = 2, 1
 
@@ -67,16 +67,20 @@ def _hygiene(fl, f0, f1, f2, order):
             cl = clients[i]
             if cl is None:
                 continue
-            if fate in ('live-upgraded', 'vanish-before-probe', 'vanish-after-probe'):
+            if fate in ('live-upgraded', 'vanish-before-probe', 'vanish-after-probe', 'silent-before-probe', 'silent-after-probe'):
                 u = sut.ws_upgrade(cl.sid)
                 sut.settle()
-                if fate != 'vanish-before-probe':
+                if fate not in ('vanish-before-probe', 'silent-before-probe'):
                     u.peer.send('2probe')
                     sut.settle()
                 if fate == 'live-upgraded':
                     u.peer.send('5')
                     sut.settle()
                     cl.ws, cl.peer, cl.seen, cl.poll = True, u.peer, len(u.peer.frames), None
+                elif fate.startswith('silent-'):
+                    # the client vanishes without the WebSocket ever being reported closed (no FIN, no disconnect event):
+                    # the upgrade handshake simply never continues
+                    cl.poll = None
                 else:
                     u.peer.close()
                     sut.settle()
@@ -203,8 +207,8 @@ def _hygiene(fl, f0, f1, f2, order):
         sut.close()
 
 
-@cond(quick=dict(timeout=170, parts=dict(FL=[0, 1], F0=[0, 1, 2, 3, 4, 5, 6, 7, 8, 9, 10, 11, 12, 14])),
-      thorough=dict(timeout=900, parts=dict(FL=[0, 1], F0=[0, 1, 2, 3, 4, 5, 6, 7, 8, 9, 10, 11, 12, 14])))
+@cond(quick=dict(timeout=170, parts=dict(FL=[0, 1], F0=[0, 1, 2, 3, 4, 5, 6, 7, 8, 9, 10, 11, 12, 14, 15, 16])),
+      thorough=dict(timeout=900, parts=dict(FL=[0, 1], F0=[0, 1, 2, 3, 4, 5, 6, 7, 8, 9, 10, 11, 12, 14, 15, 16])))
 def table_after_history(fl: int, f0: int, f1: int, f2: int) -> str:
     """
     pre: fl == P.FL and f0 == P.F0 and 0 <= f1 < len(FATES) and 0 <= f2 < len(FATES) and (f1 != 13 or f2 == 13)
